@@ -177,6 +177,15 @@ def gen_payoff(rng, n, m=None):
     return [[rng.randrange(-2, 4) for _ in range(m)] for _ in range(n)]
 
 
+
+def call(ctx, inp, f):
+    """run the implementation; an exception it raises on a valid input is an oracle failure with that input"""
+    try:
+        return True, f()
+    except Exception as e:
+        ctx.fail("exception", "the implementation raised %s on a valid input" % type(e).__name__, inp, repr(e)[:300], None)
+        return False, None
+
 # ------------------------------------------------------------------ BRD / KMR / SamplingBRD
 def check_dist_series(ctx, kind, inp, rows, N, n):
     """invariants of the action distribution along a history"""
@@ -206,7 +215,7 @@ def brd_family(ctx, thorough):
             for dist in all_compositions(N, n):
                 ps = list(range(N)) + [rng.randrange(N) for _ in range(3)]
                 specs.append(("BRD", A, N, dist, ps, None, {}))
-    for _ in range(260 if thorough else 90):
+    for _ in range(1500 if thorough else 160):
         n = rng.choice([1, 2, 2, 3, 3, 4, 4])
         N = rng.choice([1, 2, 3, 4, 5, 6, 8])
         A = gen_payoff(rng, n)
@@ -238,16 +247,20 @@ def brd_family(ctx, thorough):
         opts = {} if tol is None else {"tol": tol}
         inp = {"class": cls, "A": A, "N": N, "init_action_dist": dist, "player_ind_seq": ps, "tol": tol}
         inp.update({k: v for k, v in extra.items()})
+        PAD = [0] * (2 * ts + 4)      # a wrong draw protocol must show up as a wrong history, not as an exhausted script
         if cls == "BRD":
             dyn = BRD(A, N)
-            rs = ScriptedRS(ints=ps)
+            rs = ScriptedRS(ints=ps + PAD, uniforms=[0.5] * len(PAD))
+            want_use = (len(ps), 0, 0)
         elif cls == "KMR":
             dyn = KMR(A, N, epsilon=extra["eps"])
             muts = [r for u, r in zip(extra["us"], extra["rs"]) if u < extra["eps"] and n > 1]
-            rs = ScriptedRS(ints=ps + muts, uniforms=extra["us"])
+            rs = ScriptedRS(ints=ps + muts + PAD, uniforms=extra["us"] + [0.5] * len(PAD))
+            want_use = (len(ps) + len(muts), len(extra["us"]), 0)
         else:
             dyn = SamplingBRD(A, N, k=extra["k"])
-            rs = ScriptedRS(ints=ps, samples=extra["samples"])
+            rs = ScriptedRS(ints=ps + PAD, uniforms=[0.5] * len(PAD), samples=extra["samples"] + [[0] * extra["k"]] * 4)
+            want_use = (len(ps), 0, len(extra["samples"]))
         if default_tol is None:
             default_tol = dyn.player.tol
         tolq = frac(default_tol if tol is None else tol)
@@ -260,6 +273,12 @@ def brd_family(ctx, thorough):
             status = "ok"
         except IndexError:
             exp, status, hist, final = "None", "IndexError", None, None
+        except Exception as e:
+            exp, status, hist, final = "None", "exception", None, None
+            ctx.fail("brd_exception", "time_series raised %r" % (e,), inp, repr(e), None)
+        if status == "ok" and (rs.ii, rs.iu, rs.isamp) != want_use:
+            ctx.fail("draw_protocol", "the dynamics consumed random draws other than those its definition prescribes "
+                     "(integers, uniforms, samples)", inp, [rs.ii, rs.iu, rs.isamp], list(want_use))
         ctx.count("%s:%s" % (cls, status))
         ctx.count("%s:n=%d" % (cls, n))
         ctx.count("%s:ts%s" % (cls, "<=5" if ts <= 5 else ("<=40" if ts <= 40 else "=200")))
@@ -290,13 +309,33 @@ def brd_family(ctx, thorough):
                         ctx.fail("brd_transition", "next action distribution is not the one prescribed for the revising player drawn",
                                  dict(inp, period=t), rows[t + 1], want)
                         break
+            # play(): one period on the SAME object from a visited state must reproduce the next state of the series
+            if ts >= 1:
+                t = rng.randrange(ts)
+                cur = rows[t]
+                a = [i for i in range(n) for _ in range(cur[i])][ps[t]]
+                arr = np.array(cur, dtype=float)
+                if cls == "BRD":
+                    rs2 = ScriptedRS(ints=[0] * 4, uniforms=[0.5] * 4)
+                elif cls == "KMR":
+                    idx = sum(1 for u in extra["us"][:t] if u < extra["eps"])
+                    rs2 = ScriptedRS(ints=([muts[idx]] if (extra["us"][t] < extra["eps"] and n > 1) else []) + [0] * 4, uniforms=[extra["us"][t]] + [0.5] * 4)
+                else:
+                    rs2 = ScriptedRS(ints=[0] * 4, uniforms=[0.5] * 4, samples=[extra["samples"][t]] + [[0] * extra["k"]] * 2)
+                okc, got = call(ctx, dict(inp, call="play", period=t), lambda: dyn.play(a, arr, random_state=rs2, **opts))
+                if okc and [int(x) for x in got] != rows[t + 1]:
+                    ctx.fail("play_mismatch", "play() from a visited state does not give the next state of time_series", dict(inp, call="play", period=t),
+                             [int(x) for x in got], rows[t + 1])
             if cls == "SamplingBRD":
                 for (a_, size_, p_), t in zip(rs.choice_p, range(ts)):
-                    if size_ != extra["k"] or a_ != n or any(x < 0 for x in p_) or abs(sum(p_) - 1) > 1e-12:
+                    cur = rows[t]
+                    a_rev = [i for i in range(n) for _ in range(cur[i])][ps[t]]
+                    others = [(c - (1 if i == a_rev else 0)) / (N - 1) for i, c in enumerate(cur)]   # empirical distribution of the OTHER players
+                    if size_ != extra["k"] or a_ != n or any(x < 0 for x in p_) or abs(sum(p_) - 1) > 1e-12 or list(p_) != others:
                         ctx.fail("sampling_probabilities", "SamplingBRD samples from something that is not the others' empirical distribution",
                                  dict(inp, period=t), [a_, size_, p_], None)
                         break
-        elif tolq >= 0:
+        elif tolq >= 0 and status == "IndexError":
             ctx.fail("brd_exception", "time_series raised IndexError on a valid input", inp, status, None)
         if cls == "BRD":
             cases[cls].append(tup(qmat(A), qlit(tolq), zlist(dist), zlist(ps), exp))
@@ -334,11 +373,13 @@ def brd_family(ctx, thorough):
         cls = rng.choice(["BRD", "KMR", "SamplingBRD"])
         eps, k = rng.choice([0.1, 0.3]), rng.choice([1, 2, 3])
         mk = {"BRD": lambda: BRD(A, N), "KMR": lambda: KMR(A, N, epsilon=eps), "SamplingBRD": lambda: SamplingBRD(A, N, k=k)}[cls]
-        o1 = mk().time_series(ts, random_state=seed)
-        o2 = mk().time_series(ts, random_state=np.random.RandomState(seed))
-        rec = RecordingRS(seed)
-        o3 = mk().time_series(ts, random_state=rec)
         inp = {"class": cls, "A": A, "N": N, "ts": ts, "seed": seed, "eps": eps, "k": k}
+        rec = RecordingRS(seed)
+        okc, r = call(ctx, inp, lambda: (mk().time_series(ts, random_state=seed), mk().time_series(ts, random_state=np.random.RandomState(seed)),
+                                         mk().time_series(ts, random_state=rec)))
+        if not okc:
+            continue
+        o1, o2, o3 = r
         ctx.case(("brd-seed", cls, A, N, ts, seed), nontrivial=True)
         ctx.count("%s:recorded-stream" % cls)
         if not (np.array_equal(o1, o2) and np.array_equal(o1, o3)):
@@ -390,9 +431,12 @@ def brd_family(ctx, thorough):
         n, N = rng.choice([2, 3, 4]), rng.choice([3, 5, 8])
         A = [[rng.choice([0, 1]) for _ in range(n)] for _ in range(n)]
         seed = rng.randrange(2 ** 31)
-        o = BRD(A, N).time_series(30, tie_breaking="random", random_state=seed)
-        o2 = BRD(A, N).time_series(30, tie_breaking="random", random_state=seed)
         inp = {"class": "BRD", "A": A, "N": N, "tie_breaking": "random", "seed": seed}
+        okc, r = call(ctx, inp, lambda: (BRD(A, N).time_series(30, tie_breaking="random", random_state=seed),
+                                         BRD(A, N).time_series(30, tie_breaking="random", random_state=seed)))
+        if not okc:
+            continue
+        o, o2 = r
         ctx.case(("brd-random-ties", A, N, seed), nontrivial=True)
         ctx.count("BRD:tie_breaking=random")
         check_dist_series(ctx, "brd", inp, [[int(x) for x in r] for r in o], N, n)
@@ -424,7 +468,7 @@ def fict_play(ctx, thorough):
     rng = ctx.rng
     cases, meta = [], []
     fcases, fmeta = [], []
-    for it in range(240 if thorough else 90):
+    for it in range(2000 if thorough else 220):
         n0, n1 = rng.choice([1, 2, 2, 3, 3, 4]), rng.choice([2, 2, 3, 3, 4])
         A = gen_payoff(rng, n0, n1)
         B = gen_payoff(rng, n1, n0)
@@ -449,7 +493,10 @@ def fict_play(ctx, thorough):
             perts = [(vecs[2 * j], vecs[2 * j + 1]) for j in range(max(ts - 1, 0))]
         else:
             fp = FictitiousPlay(g, gain=gain)
-        out = fp.time_series(ts, init_actions=init, t_init=t_init, **opts)
+        okc, out = call(ctx, {"class": "FictitiousPlay", "A": A, "B": B, "gain": gain, "ts": ts, "t_init": t_init, "tol": tol, "init": init},
+                        lambda: fp.time_series(ts, init_actions=init, t_init=t_init, **opts))
+        if not okc:
+            continue
         tolq = frac(Player(A).tol if tol is None else tol)
         x0, x1 = as_vec(init[0], n0), as_vec(init[1], n1)
         exact = dyadic
@@ -492,6 +539,11 @@ def fict_play(ctx, thorough):
                     ok = False
             if not ok:
                 break
+        if ok and ts >= 2 and not stochastic:
+            okc, fin = call(ctx, dict(inp, call="play"), lambda: fp.play(actions=init, num_reps=ts - 1, t_init=t_init, **opts))
+            if okc and any(fin[i].tolist() != out[i][-1].tolist() for i in (0, 1)):
+                ctx.fail("play_mismatch", "FictitiousPlay.play(num_reps) differs from the last row of time_series", dict(inp, call="play"),
+                         [fin[0].tolist(), fin[1].tolist()], [out[0][-1].tolist(), out[1][-1].tolist()])
         pl = "[" + "; ".join("None" if perts is None else "(Some (%s, %s))" % (qlist([frac(x) for x in perts[j][0]]), qlist([frac(x) for x in perts[j][1]]))
                              for j in range(max(ts - 1, 0))) + "]"
         if ts <= 1:
@@ -542,9 +594,11 @@ def fict_play_three(ctx, thorough):
         g = NormalFormGame(players)
         seed = rng.randrange(2 ** 31)
         ts = 15
-        o = FictitiousPlay(g).time_series(ts, random_state=seed)
-        o2 = FictitiousPlay(g).time_series(ts, random_state=seed)
         inp = {"class": "FictitiousPlay", "players": 3, "nums_actions": ns, "seed": seed}
+        okc, r = call(ctx, inp, lambda: (FictitiousPlay(g).time_series(ts, random_state=seed), FictitiousPlay(g).time_series(ts, random_state=seed)))
+        if not okc:
+            continue
+        o, o2 = r
         ctx.case(("fp3", ns, seed, [p.payoff_array.tolist() for p in players]), nontrivial=True)
         ctx.count("FP:three-player(oracle only)")
         if any(not np.array_equal(a, b) for a, b in zip(o, o2)):
@@ -575,7 +629,7 @@ def local_interaction(ctx, thorough):
         for prof in itertools.product(range(n), repeat=N):
             specs.append((A, adj, list(prof), "simultaneous", None, 3, None))
             specs.append((A, adj, list(prof), "asynchronous", list(range(N)), N + 1, None))
-    for _ in range(220 if thorough else 80):
+    for _ in range(1800 if thorough else 200):
         n = rng.choice([1, 2, 2, 3, 3, 4])
         N = rng.choice([1, 2, 3, 4, 5, 6])
         A = gen_payoff(rng, n)
@@ -604,16 +658,20 @@ def local_interaction(ctx, thorough):
         n, N = len(A), len(adj)
         li = LocalInteraction(A, np.array(adj))
         opts = {} if tol is None else {"tol": tol}
+        inp = {"class": "LocalInteraction", "A": A, "adj": adj, "actions": prof, "revision": rev, "player_ind_seq": seq, "ts": ts, "tol": tol, "seq_mode": mode}
         if rev == "asynchronous" and mode == "drawn":
-            rs = ScriptedRS(ints=seq)
-            out = li.time_series(ts, revision=rev, actions=tuple(prof), random_state=rs, **opts)
+            rs = ScriptedRS(ints=seq + [0] * 8, uniforms=[0.5] * 8)
+            okc, out = call(ctx, inp, lambda: li.time_series(ts, revision=rev, actions=tuple(prof), random_state=rs, **opts))
+            if okc and (rs.ii, rs.iu) != (len(seq), 0):
+                ctx.fail("draw_protocol", "LocalInteraction consumed random draws other than the revising players", inp, [rs.ii, rs.iu], [len(seq), 0])
         elif rev == "asynchronous":
-            out = li.time_series(ts, revision=rev, actions=tuple(prof), player_ind_seq=seq, **opts)
+            okc, out = call(ctx, inp, lambda: li.time_series(ts, revision=rev, actions=tuple(prof), player_ind_seq=seq, **opts))
         else:
-            out = li.time_series(ts, revision=rev, actions=tuple(prof), **opts)
+            okc, out = call(ctx, inp, lambda: li.time_series(ts, revision=rev, actions=tuple(prof), **opts))
+        if not okc:
+            continue
         rows = [[int(x) for x in r] for r in out]
         tolq = frac(default_tol if tol is None else tol)
-        inp = {"class": "LocalInteraction", "A": A, "adj": adj, "actions": prof, "revision": rev, "player_ind_seq": seq, "ts": ts, "tol": tol, "seq_mode": mode}
         ctx.case(("li", A, adj, prof, rev, seq, ts, tol), nontrivial=(n >= 2 and ts >= 2 and N >= 2), sample={"LocalInteraction": inp, "impl": rows[:3]})
         ctx.count("LocalInteraction:%s" % rev)
         ctx.count("LocalInteraction:N=%d" % N)
@@ -638,6 +696,17 @@ def local_interaction(ctx, thorough):
                     ctx.fail("localint_transition", "next profile is not the best response of the revising player(s) to the old profile",
                              dict(inp, period=t), rows[t + 1], want)
                     break
+        if good and ts >= 2:
+            if rev == "simultaneous":
+                okc, fin = call(ctx, dict(inp, call="play"), lambda: li.play(revision=rev, actions=tuple(prof), num_reps=ts - 1, **opts))
+            else:
+                k_ = rng.randrange(1, ts)
+                okc, fin = call(ctx, dict(inp, call="play"), lambda: li.play(revision=rev, actions=tuple(prof),
+                                                                              player_ind_seq=(seq[0] if k_ == 1 and rng.random() < 0.5 else seq[:k_]), **opts))
+            want_fin = rows[-1] if rev == "simultaneous" else rows[k_]
+            if okc and [int(x) for x in fin] != want_fin:
+                ctx.fail("play_mismatch", "LocalInteraction.play differs from the corresponding row of time_series", dict(inp, call="play"),
+                         [int(x) for x in fin], want_fin)
         ds = ["None" if rev == "simultaneous" else "(Some %s)" % zlit(seq[t]) for t in range(ts - 1)]
         dl = "[" + "; ".join(ds) + "]" if ds else "(@nil (option Z))"
         cases.append(tup(qmat(A), qmat(adj), qlit(tolq), zlist(prof), dl, "(Some %s)" % zlist2(rows)))
@@ -654,9 +723,12 @@ def local_interaction(ctx, thorough):
         adj = [[rng.choice([0, 1, 2]) for _ in range(N)] for _ in range(N)]
         seed = rng.randrange(2 ** 31)
         rev = rng.choice(["simultaneous", "asynchronous"])
-        o1 = LocalInteraction(A, adj).time_series(20, revision=rev, random_state=seed)
-        o2 = LocalInteraction(A, adj).time_series(20, revision=rev, random_state=seed)
         inp = {"class": "LocalInteraction", "A": A, "adj": adj, "revision": rev, "seed": seed}
+        okc, r = call(ctx, inp, lambda: (LocalInteraction(A, adj).time_series(20, revision=rev, random_state=seed),
+                                         LocalInteraction(A, adj).time_series(20, revision=rev, random_state=seed)))
+        if not okc:
+            continue
+        o1, o2 = r
         ctx.case(("li-seed", A, adj, rev, seed), nontrivial=True)
         ctx.count("LocalInteraction:seeded")
         if not np.array_equal(o1, o2):
@@ -670,7 +742,7 @@ def logit_dynamics(ctx, thorough):
     from quantecon.game_theory import LogitDynamics, NormalFormGame, Player
     rng = ctx.rng
     cases, meta = [], []
-    for it in range(160 if thorough else 60):
+    for it in range(1500 if thorough else 160):
         Np = rng.choice([2, 2, 2, 3])
         ns = [rng.choice([1, 2, 3, 4]) if Np == 2 else rng.choice([2, 3]) for _ in range(Np)]
         players = []
@@ -706,8 +778,15 @@ def logit_dynamics(ctx, thorough):
             us.append(u)
             v = u * c
             cur[i] = sum(1 for x in cdf if x <= v)
-        rs = ScriptedRS(ints=seq, uniforms=us)
-        out = ld.time_series(ts, init_actions=tuple(init), random_state=rs)
+        rs = ScriptedRS(ints=seq + [0] * 8, uniforms=us + [0.5] * 8)
+        okc, out = call(ctx, {"class": "LogitDynamics", "payoffs": [p.payoff_array.tolist() for p in players], "beta": beta, "init": init,
+                              "player_ind_seq": seq, "uniforms": [u.hex() for u in us]},
+                        lambda: ld.time_series(ts, init_actions=tuple(init), random_state=rs))
+        if not okc:
+            continue
+        if (rs.ii, rs.iu) != (len(seq), len(us)):
+            ctx.fail("draw_protocol", "LogitDynamics consumed random draws other than one revising player and one uniform per period",
+                     {"class": "LogitDynamics", "ts": ts}, [rs.ii, rs.iu], [len(seq), len(us)])
         rows = [[int(x) for x in r] for r in out]
         inp = {"class": "LogitDynamics", "payoffs": [p.payoff_array.tolist() for p in players], "beta": beta, "init": init, "player_ind_seq": seq,
                "uniforms": [u.hex() for u in us]}
@@ -738,10 +817,22 @@ def logit_dynamics(ctx, thorough):
                 w = [math.exp(float((p - max(pay)) * Fraction(beta))) for p in pay]
                 W = sum(w)
                 lo, hi = sum(w[:new[i]]) / W, sum(w[:new[i] + 1]) / W
-                if not (lo - 1e-9 <= us[t] < hi + 1e-9):
+                # the documented rule in binary64, recomputed from the payoffs (not from the object's tables, not from the Coq model):
+                # cdf = cumsum(exp((payoff - max) * beta)); the new action is the number of entries of cdf that are <= u*cdf[-1]
+                pv = np.array([players[i].payoff_array[(a,) + opp] for a in range(ns[i])])
+                cdf_o = np.exp((pv - pv.max()) * beta).cumsum()
+                want_a = int(np.sum(cdf_o <= us[t] * cdf_o[-1]))
+                if not (lo - 1e-9 <= us[t] < hi + 1e-9) or new[i] != want_a:
                     ctx.fail("logit_law", "new action is not the inverse-CDF image of the uniform under the logit choice probabilities",
-                             dict(inp, period=t), new[i], [lo, us[t], hi])
+                             dict(inp, period=t), new[i], [lo, us[t], hi, want_a])
                     break
+        if okr and ts >= 2:
+            k_ = rng.randrange(1, ts)
+            rs3 = ScriptedRS(ints=[0] * 4, uniforms=us[:k_] + [0.5] * 4)
+            okc, fin = call(ctx, dict(inp, call="play"), lambda: ld.play(init_actions=tuple(init), player_ind_seq=(seq[0] if k_ == 1 else seq[:k_]), random_state=rs3))
+            if okc and [int(x) for x in fin] != rows[k_]:
+                ctx.fail("play_mismatch", "LogitDynamics.play differs from the corresponding row of time_series", dict(inp, call="play"),
+                         [int(x) for x in fin], rows[k_])
         tl = "[" + "; ".join("[" + "; ".join(tup(zlist(k), flist(v)) for k, v in tbl) + "]" for tbl in tables) + "]"
         ds = [tup(zlit(p), flit(u) + "%float") for p, u in zip(seq, us)]
         cases.append(tup(tl, zlist(init), "[" + "; ".join(ds) + "]", zlist2(rows)))
@@ -755,9 +846,12 @@ def logit_dynamics(ctx, thorough):
         ns = [rng.choice([2, 3]), rng.choice([2, 3, 4])]
         g = NormalFormGame((Player(gen_payoff(rng, ns[0], ns[1])), Player(gen_payoff(rng, ns[1], ns[0]))))
         seed = rng.randrange(2 ** 31)
-        o1 = LogitDynamics(g, beta=1.5).time_series(50, random_state=seed)
-        o2 = LogitDynamics(g, beta=1.5).time_series(50, random_state=seed)
-        inp = {"class": "LogitDynamics", "nums_actions": ns, "seed": seed}
+        inp = {"class": "LogitDynamics", "nums_actions": ns, "seed": seed, "payoffs": [p.payoff_array.tolist() for p in g.players]}
+        okc, r = call(ctx, inp, lambda: (LogitDynamics(g, beta=1.5).time_series(50, random_state=seed),
+                                         LogitDynamics(g, beta=1.5).time_series(50, random_state=seed)))
+        if not okc:
+            continue
+        o1, o2 = r
         ctx.case(("logit-seed", ns, seed, [p.payoff_array.tolist() for p in g.players]), nontrivial=True)
         ctx.count("Logit:seeded")
         if not np.array_equal(o1, o2):
